@@ -3,6 +3,15 @@ import Bch.Props.C09
 /-
 C09 at the level of message objects (`Model/BloomObj.lean`): the filter points at a caller-owned message and inserts
 into it in place.  The value-level histories of `Props/C09.lean` are exactly the view "object currently pointed at".
+
+SCOPE of the object model (stated here because the frame theorems depend on it): ONE `bloom.Filter`, and message
+objects that each own their bit array (`Msg.bits` is held by value).  In Go a message holds a *slice*: two
+`wire.MsgFilterLoad` values can share one backing array (`m2 := *m1`, `NewMsgFilterLoad(m1.Filter, …)`), two Filters can
+be loaded with the same message, and the caller can write `m.Filter` directly.  None of that is expressible here, so
+`C09_obj_frame` ("no operation writes an object that is not loaded") is a statement about messages with pairwise
+distinct bit arrays used through one Filter — which is also what the `histobj` cases of the harness exercise.
+`C09_obj_no_false_negatives` does not depend on that restriction in spirit (insertions only ever SET bits, so an array
+shared between objects still holds every bit any of them needs), but it is proved for this model only.
 -/
 namespace Bch.Props.C09
 open Bch Bch.Model Bch.Model.Bloom Bch.Model.BloomObj
@@ -92,6 +101,12 @@ theorem C09_obj_view_step (s : State) (op : BloomObj.Op) (bop : Bloom.Op) (h : S
       | some k =>
         have hk := h k hc
         simp [view, hc, List.getElem?_eq_getElem hk]
+
+/-- the answers of the object-level insertions, queries and `IsLoaded` are the value-level answers on the object
+    pointed at (the other half of `C09_obj_view_step`) -/
+theorem C09_obj_answer_step (s : State) (op : Bloom.Op) (hr : ∀ m, op ≠ .reload m) (hu : op ≠ .unload) :
+    (stepObj s (.base op)).2 = (Bloom.step (view s) op).2.map fun b => if b then "1" else "0" := by
+  cases op <;> first | rfl | (exact absurd rfl (hr _)) | (exact absurd rfl hu)
 
 /-- **frame**: no operation writes to a message object the filter does not point at, and no operation removes or
     reorders objects — in particular `Reload` writes to *no* object (the object loaded before keeps what was inserted
